@@ -116,10 +116,12 @@ func c06Model_PKBytes(p solana.PublicKey) []byte { return []byte(p[:]) }
 //   howManyBuffersToFlushConcurrently := 256    -> := verifC06Parked
 //   a.accum.Len() > 100_000                     -> a.accum.Len() > verifC06AccumLimit
 //   time.After(1 * time.Second)                 -> verifC06Timer(a.exiting, a.fullBufferWriterChan)
+//   len(values) < 100   (C06.partial only)      -> len(values) < verifC06ColdLimit
 
 var (
 	verifC06Parked     = 256
 	verifC06AccumLimit = 100_000
+	verifC06ColdLimit  = 100 // "cold" addresses: fewer pending entries than this are written by the periodic partial flush
 )
 
 // verifC06Timer is an engine intrinsic under symgo (ext_C06.go); natively a short timer.
